@@ -189,13 +189,29 @@ def r18_4_5_6(chk):
     mfd = ix.get_class("MultiFrameData")
     it_ = mfd.lookup("__iter__")
     nx = mfd.lookup("__next__")
-    chk.consult(it_, nx)
+    if it_ is None:
+        raise AnalysisError("MultiFrameData.__iter__ not found")
+    if nx is None and it_.is_generator():
+        # generator form: the numbering lives in the locals of one generator run - per frame and per write by
+        # construction; that it counts all rows from 1 is C03 R03.1's rule for this form
+        from . import c03
+        chk.consult(it_)
+        c03._numbering_generator_form(chk, mfd, it_)
+        for o in chk.obs:
+            if o.rule == "R03.1":
+                o.rule = "R18.4"
+        nx = None
+    elif nx is None:
+        raise AnalysisError("MultiFrameData is neither an iterator (__next__) nor a generator-based iterable")
+    else:
+        chk.consult(it_, nx)
     counter = None
-    for s in stores_in(nx):
+    for s in (stores_in(nx) if nx is not None else ()):
         if s.kind == "aug" and isinstance(s.base, ast.Name) and s.base.id == "self":
             counter = s.attr
-    chk.require(counter is not None, "R18.4", "frame-counter-is-instance-state",
-                "the frame number is not an instance field of the per-frame generator", nx.where)
+    if nx is not None:
+        chk.require(counter is not None, "R18.4", "frame-counter-is-instance-state",
+                    "the frame number is not an instance field of the per-frame generator", nx.where)
     if counter:
         reset = [s for s in stores_in(it_) if s.attr == counter and isinstance(s.value, ast.Constant)
                  and s.value.value == 0]
